@@ -187,6 +187,52 @@ void h_mtf_fast(void)
   if (c == 0) V_CANARY("front element");
 }
 
+
+/* O5.6  Block header section of the real retrieve(), from S_INIT: randomisation bit, 24-bit primary index, two-level symbol map,
+   table count, selector count -- against the layout of the bzip2 format read directly from the input bits.
+   Bound: the first-level map has at most HDR_GROUPS bits set (so the section fits in the 4 symbolic input words). */
+#ifndef HDR_GROUPS
+#define HDR_GROUPS 2
+#endif
+int g_hdr_stop;
+static unsigned g_x_alpha, g_x_trees, g_x_sel, g_x_rand, g_x_idx; static int g_x_reached; static uint8_t g_x_map[256];
+static unsigned hb_get(const uint32_t *w, unsigned pos, unsigned nbits)       /* nbits (<= 24) of the big-endian bit string starting at bit pos */
+{ unsigned v = 0, k; for (k = 0; k < 24; k++) if (k < nbits) { unsigned b = pos + k; v = (v << 1) | ((w[b / 32] >> (31 - b % 32)) & 1u); } return v; }
+void verif_retrieve_header_done(struct decoder_state *ds, unsigned alpha_size, unsigned num_trees, unsigned num_selectors, const unsigned char *map)
+{
+  unsigned k;
+  __CPROVER_assert(ds->rand == (g_x_rand != 0) && ds->bwt_idx == g_x_idx, "block header: randomisation bit and 24-bit primary index are the stored fields");
+  __CPROVER_assert(alpha_size == g_x_alpha && num_trees == g_x_trees && num_selectors == g_x_sel, "block header: alphabet size = used byte values + 2, table count and selector count are the stored fields");
+  { int ok = 1; for (k = 0; k < 32; k++) if (k + 2 < g_x_alpha && map[k] != g_x_map[k]) ok = 0; __CPROVER_assert(ok, "block header: the symbol map lists exactly the byte values marked used, in ascending order"); }
+  __CPROVER_assert(g_x_alpha > 2 && g_x_trees >= MIN_TREES && g_x_trees <= MAX_TREES && g_x_sel >= 1, "block header: accepted only with a used symbol, 2..6 tables and at least one selector");
+  g_x_reached = 1;
+  __CPROVER_assert(0, "CANARY header accepted");
+}
+void h_block_header(void)
+{
+  struct decoder_state ds; struct bitstream bs; uint32_t mem[4];
+  V_IN_ARR(uint32_t, wd, 4);
+  unsigned i, j, pos, nused = 0, big, groups = 0;
+  for (i = 0; i < 4; i++) mem[i] = htonl(wd[i]);
+  /* ---- the fields as the format lays them out */
+  g_x_rand = hb_get(wd, 0, 1); g_x_idx = hb_get(wd, 1, 24); big = hb_get(wd, 25, 16); pos = 41;
+  for (i = 0; i < 16; i++) if ((big >> (15 - i)) & 1u) groups++;
+  V_ASSUME(groups <= HDR_GROUPS);
+  for (i = 0; i < 16; i++) if ((big >> (15 - i)) & 1u) { unsigned small = hb_get(wd, pos, 16); pos += 16; for (j = 0; j < 16; j++) if ((small >> (15 - j)) & 1u) { if (nused < 256) g_x_map[nused] = (uint8_t)(16 * i + j); nused++; } }
+  g_x_alpha = nused + 2; g_x_trees = hb_get(wd, pos, 3); g_x_sel = hb_get(wd, pos + 3, 15);
+  int want = nused == 0 ? ERR_BITMAP : (g_x_trees < MIN_TREES || g_x_trees > MAX_TREES) ? ERR_TREES : g_x_sel == 0 ? ERR_GROUPS : 999;
+  ds.internal_state = &RS; ds.tt = TT; ds.block_size = 0;
+  RS.state = S_INIT;
+  bs.live = 0; bs.buff = 0; bs.data = mem; bs.limit = mem + 4; bs.eof = 0; bs.block = 0;
+  g_hdr_stop = 1; g_x_reached = 0;
+  int rv = retrieve(&ds, &bs);
+  V_ASSERT(want != 999, "a well-formed block header reaches the selector section");
+  V_ASSERT(rv == want, "block header: ERR_BITMAP iff no byte value is used, else ERR_TREES iff the table count is outside 2..6, else ERR_GROUPS iff there is no selector");
+  if (rv == ERR_BITMAP) V_CANARY("empty map rejected");
+  if (rv == ERR_TREES) V_CANARY("bad table count rejected");
+  if (rv == ERR_GROUPS) V_CANARY("zero selectors rejected");
+}
+
 #ifdef VERIF_REPLAY
 int main(void) { HARNESS(); puts("REPLAY-PASS"); return 0; }
 #endif
